@@ -252,7 +252,7 @@ fn run_case_here(case: &Value) -> Result<(), String> {
 // ---------------------------------------------------------------- Miri
 fn run_miri(ctx: &Ctx) -> Result<u64, String> {
     let dir = ctx.verif_dir.join("harness-miri");
-    let out = std::process::Command::new("cargo")
+    let out = crate::common::child_command("cargo")
         .arg("+nightly")
         .arg("miri")
         .arg("run")
@@ -280,7 +280,7 @@ fn run_miri(ctx: &Ctx) -> Result<u64, String> {
 // ---------------------------------------------------------------- parent side
 fn spawn(ctx: &Ctx, mode: &str, part: &str, verbose: bool, threads: Option<usize>) -> std::process::Output {
     let exe = std::env::current_exe().unwrap();
-    let mut cmd = std::process::Command::new(exe);
+    let mut cmd = crate::common::child_command(exe);
     cmd.arg("C12").arg("--tier").arg(ctx.tier_str()).arg("--verif-dir").arg(&ctx.verif_dir).arg("--child").arg("--part").arg(part);
     if verbose {
         cmd.arg("--verbose");
@@ -335,7 +335,7 @@ pub fn replay(case: &Value) -> Result<(), String> {
     }
     // run the case in a child with the page heap of the recorded mode
     let exe = std::env::current_exe().map_err(|e| e.to_string())?;
-    let mut cmd = std::process::Command::new(exe);
+    let mut cmd = crate::common::child_command(exe);
     cmd.arg("C12").arg("--replay-case").arg(case.to_string());
     if mode != "off" {
         cmd.env("RQ_PAGEHEAP", mode);
